@@ -102,7 +102,7 @@ class C18(Prop):
     anchors = ["aioswitcher.api:SwitcherApi.connect", "aioswitcher.api:SwitcherApi.disconnect", "aioswitcher.api:SwitcherApi.__aenter__",
                "aioswitcher.api:SwitcherApi.__aexit__"]
     min_evaluations = {"quick": 10_000, "thorough": 150_000}
-    budget_s = {"quick": 90, "thorough": 900}
+    budget_s = {"quick": 300, "thorough": 900}
 
     async def setup(self, ctx):
         self.rig = tcpwork.Rig(ctx["shard"])
